@@ -4,7 +4,7 @@ use super::common::*;
 use crate::gen::{words, WordInfo};
 use crate::runner::{pick_idx, CaseReport, Ctx};
 use crate::tool::{parse_compound, run, shared_db, Mirror, UKey, R};
-use crate::units_ref::{dim_add, dim_spelling, mirror_dim, mirror_scale, typable_word, vocab, ZERO_DIM};
+use crate::units_ref::{dim_add, dim_spelling, mirror_dim, mirror_scale, typable_word, vocab, Dim, ZERO_DIM};
 use num::{BigRational, One};
 use proptest::prelude::*;
 use serde::{Deserialize, Serialize};
@@ -87,6 +87,10 @@ pub enum Case {
     Definition { variant: String },
     /// `1 <name>^n to <SI base expression>^n`: the unit keeps its dimensions and scale under a power
     DefinitionPower { variant: String, power: i32 },
+    /// `1 <name> to <SI base expression of another unit's dimension>`: what a name means must not depend on the cast target
+    DefinitionContext { variant: String, target: Dim },
+    /// `1 N / 1 <name> to <SI base expression of N/name>`: ... nor on the target of an enclosing expression
+    DefinitionDivisor { variant: String },
     Word { word: String },
     Bare { variant: String, name: String },
     Expr { text: String, parts: Vec<Part> },
@@ -209,6 +213,72 @@ fn check_definition_power(variant: &str, n: i32) -> CaseReport {
                 }
             }
             _ => CaseReport::fail(key, format!("definition-power-cast-fails:{}", variant), json!({"query": q, "got": results_json(&rs)})),
+        },
+    }
+}
+
+/// A unit name in front of a cast target of any dimension: accepted exactly when the dimensions agree,
+/// and then with an accepted scale (a reading that depends on the target is caught here).
+fn check_definition_context(variant: &str, target: &Dim) -> CaseReport {
+    let v = vocab();
+    let u = v.unit(variant);
+    let q = format!("1 {} to {}", u.probe, dim_spelling(target));
+    let key = format!("definition:{} in front of {}", variant, dim_spelling(target));
+    if u.offset {
+        return CaseReport::pass(key, false, vec!["offset-scale(skipped)"]);
+    }
+    match run(shared_db(), &q) {
+        Err(p) => CaseReport::fail(key, "panic", json!({"query": q, "panic": p})),
+        Ok(rs) => match rs.as_slice() {
+            [R::Ok(val)] => {
+                if *target != u.dim {
+                    return CaseReport::fail(key, format!("definition-context-accepted:{}", variant), json!({"query": q, "got": rs[0].brief(), "why": "the unit's dimension differs from the target's, the cast must be refused"}));
+                }
+                let si = &val.value * &mirror_scale(&val.unit, reference_scales()).unwrap_or_else(BigRational::one);
+                if mirror_dim(&val.unit) == Some(u.dim) && u.scales.iter().any(|s| *s == si) {
+                    CaseReport::pass(key, true, vec!["definition-in-cast-context(same dimension)"])
+                } else {
+                    CaseReport::fail(key, format!("definition-scale:{}", variant), json!({"query": q, "got": si.to_string()}))
+                }
+            }
+            [R::Err { .. }] => {
+                if *target == u.dim {
+                    CaseReport::fail(key, format!("definition-cast-fails:{}", variant), json!({"query": q, "got": results_json(&rs)}))
+                } else {
+                    CaseReport::pass(key, true, vec!["definition-in-cast-context(refused)"])
+                }
+            }
+            _ => CaseReport::fail(key, "result-count", json!({"query": q, "got": results_json(&rs)})),
+        },
+    }
+}
+
+/// The name as a divisor inside an expression that is cast as a whole: `1 N / 1 <name> to <N/name in SI base units>`.
+fn check_definition_divisor(variant: &str) -> CaseReport {
+    let v = vocab();
+    let u = v.unit(variant);
+    let key = format!("definition:N / {}", variant);
+    if u.offset {
+        return CaseReport::pass(key, false, vec!["offset-scale(skipped)"]);
+    }
+    let newton: Dim = [1, 1, -2, 0, 0, 0, 0, 0];
+    let dim = dim_add(&newton, &u.dim, -1);
+    if dim == ZERO_DIM {
+        return CaseReport::pass(key, false, vec!["dimensionless-quotient(skipped)"]);
+    }
+    let q = format!("1 N / 1 {} to {}", u.probe, dim_spelling(&dim));
+    match run(shared_db(), &q) {
+        Err(p) => CaseReport::fail(key, "panic", json!({"query": q, "panic": p})),
+        Ok(rs) => match rs.as_slice() {
+            [R::Ok(val)] => {
+                let si = &val.value * &mirror_scale(&val.unit, reference_scales()).unwrap_or_else(BigRational::one);
+                if mirror_dim(&val.unit) == Some(dim) && u.scales.iter().any(|s| s.recip() == si) {
+                    CaseReport::pass(key, true, vec!["definition-as-divisor"])
+                } else {
+                    CaseReport::fail(key, format!("definition-scale:{}", variant), json!({"query": q, "got": si.to_string(), "accepted": u.scales.iter().map(|s| s.recip().to_string()).collect::<Vec<_>>()}))
+                }
+            }
+            _ => CaseReport::fail(key, format!("definition-divisor-cast-fails:{}", variant), json!({"query": q, "got": results_json(&rs)})),
         },
     }
 }
@@ -553,6 +623,8 @@ fn check(c: &Case) -> CaseReport {
     match c {
         Case::Definition { variant } => check_definition(variant),
         Case::DefinitionPower { variant, power } => check_definition_power(variant, *power),
+        Case::DefinitionContext { variant, target } => check_definition_context(variant, target),
+        Case::DefinitionDivisor { variant } => check_definition_divisor(variant),
         Case::Word { word } => check_word(word),
         Case::Bare { variant, name } => check_bare(variant, name),
         Case::Expr { parts, .. } => check_expr(parts),
@@ -560,7 +632,7 @@ fn check(c: &Case) -> CaseReport {
 }
 
 pub fn run_check(ctx: &Ctx) {
-    ctx.set_rule("(1) all 86 unit definitions: `1 <name> to <SI base expression>` must equal an accepted standard scale (hand-written table: SI brochure, 1959 yard/pound agreement, NIST HB44, CODATA, IAU); (2) every typable [prefix]name word of data.toml: if accepted, its reading must be one of the segmentations of the word into documented prefix/unit names, and both entry points must agree; (3) every typable unit name alone denotes its own variant; (4) generated unit expressions (juxtaposition, blanks, * / ^n) against the stated semantics; non-trivial = prefixed or multi-unit word, expression with / or ^ or several words; distinct by text");
+    ctx.set_rule("(1) all 86 unit definitions: `1 <name> to <SI base expression>` must equal an accepted standard scale — also under powers, in front of every target dimension of the vocabulary (accepted exactly when the dimensions agree) and as a divisor inside a cast expression (hand-written table: SI brochure, 1959 yard/pound agreement, NIST HB44, CODATA, IAU); (2) every typable [prefix]name word of data.toml: if accepted, its reading must be one of the segmentations of the word into documented prefix/unit names, and both entry points must agree; (3) every typable unit name alone denotes its own variant; (4) generated unit expressions (juxtaposition, blanks, * / ^n) against the stated semantics; non-trivial = prefixed or multi-unit word, expression with / or ^ or several words; distinct by text");
     ctx.assume("accepted-scale sets are deliberately generous (several national definitions per name); untypable names (μ, Ω, g-force) are skipped and counted");
     let corpus: Vec<(String, Case)> = load_corpus("C05");
     let cases: Vec<Case> = corpus.into_iter().map(|c| c.1).collect();
@@ -572,6 +644,13 @@ pub fn run_check(ctx: &Ctx) {
     let powers: &[i32] = ctx.tier.pick(&[-3, -2, -1, 2, 3][..], &[-6, -5, -4, -3, -2, -1, 2, 3, 4, 5, 6][..]);
     let defp: Vec<Case> = v.units.iter().flat_map(|u| powers.iter().map(move |n| Case::DefinitionPower { variant: u.variant.clone(), power: *n })).collect();
     ctx.run_list("definitions-under-powers", &defp, check, |c| to_json(c));
+    // every name in front of every dimension that occurs in the vocabulary, and as a divisor under a cast
+    let dims: BTreeSet<Dim> = v.units.iter().filter(|u| !u.offset).map(|u| u.dim).collect();
+    ctx.put("target_dimensions", json!(dims.len()));
+    let defc: Vec<Case> = v.units.iter().flat_map(|u| dims.iter().map(move |d| Case::DefinitionContext { variant: u.variant.clone(), target: *d })).collect();
+    ctx.run_list("definitions-in-cast-context", &defc, check, |c| to_json(c));
+    let defd: Vec<Case> = v.units.iter().map(|u| Case::DefinitionDivisor { variant: u.variant.clone() }).collect();
+    ctx.run_list("definitions-as-divisor", &defd, check, |c| to_json(c));
 
     let w = words();
     ctx.put("vocabulary_words", json!(w.all.len()));
